@@ -27,7 +27,10 @@ def twin_programs(tier):
     level = 3 if tier == "thorough" else 2
     out = []
     seen = set()
-    for k, (sig, bad, good) in enumerate(c03.enumerate_cases(level)):
+    import zlib
+
+    for sig, bad, good in c03.enumerate_cases(level):
+        k = zlib.crc32("@".join(sig).encode())  # position-independent sampling: adding rules does not reshuffle the sample
         if tier != "thorough" and len(sig) > 1 and k % 6 != 0:
             continue
         if tier == "thorough" and len(sig) > 2 and k % 9 != 0:
